@@ -121,4 +121,130 @@ theorem c18_t_ReleaseBuckets (rel : Nat → Bool) (bs : List Nat) (hn : bs.lengt
   have := c18_t_ReleaseBuckets_loop rel bs hn bs.length 0 0 bs inv0 (by omega)
   simpa [len] using this
 
+/-! ## CleanEmptyGenerations -/
+
+/-- the compaction after `i` of the first `len-1` generations: the first `k` slots hold the non-empty ones, the rest
+(including the last generation) is untouched -/
+structure CInv (sz : Nat → Int) (gl cur : List Nat) (k i : Nat) : Prop where
+  ki : k ≤ i
+  ib : i + 1 ≤ gl.length
+  len : cur.length = gl.length
+  kept : cur.take k = (gl.take i).filter fun g => decide (sz g ≠ 0)
+  rest : cur.drop i = gl.drop i
+
+private theorem take_set_succ (cur : List Nat) (k x : Nat) (h : k < cur.length) :
+    (cur.set k x).take (k + 1) = cur.take k ++ [x] := by
+  rw [List.take_add_one]; simp [h, List.take_set_of_le]
+
+/-- the code after the loop (reached with `i = len-1`, whatever fuel is left): the last generation is always kept -/
+private theorem clean_tail (sz : Nat → Int) (gl cur : List Nat) (k : Nat) (hn : gl.length < 4611686018427387904)
+    (hpos : 0 < gl.length) (inv : CInv sz gl cur k (gl.length - 1)) (fuel : Nat) :
+    T.Cleaner_CleanEmptyGenerations_loop0 (fun g => g) sz ((gl.length - 1 : Nat) : Int) fuel cur k ((gl.length - 1 : Nat) : Int)
+      = some (((gl.length - ((gl.dropLast.filter fun g => decide (sz g ≠ 0)) ++ [gl[gl.length - 1]'(by omega)]).length : Nat) : Int),
+          (gl.dropLast.filter fun g => decide (sz g ≠ 0)) ++ [gl[gl.length - 1]'(by omega)]) := by
+  have h1 : cur[gl.length - 1]? = gl[gl.length - 1]? := by
+    have := congrArg (fun l => l[0]?) inv.rest
+    simpa [List.getElem?_drop] using this
+  have hlast : cur[gl.length - 1]? = some (gl[gl.length - 1]'(by omega)) := by
+    rw [h1, List.getElem?_eq_getElem]
+  have hk := inv.ki
+  have hkl : k < cur.length := by rw [inv.len]; omega
+  have g : ¬ ¬ ((0 : Int) ≤ (k : Int) ∧ (k : Int) < len cur) := by unfold len; omega
+  have hw : wrapI64 ((k : Int) + 1) = ((k + 1 : Nat) : Int) := by unfold wrapI64; omega
+  have hkeep : cur.take k = gl.dropLast.filter fun g => decide (sz g ≠ 0) := by
+    rw [inv.kept, List.dropLast_eq_take]
+  have hl : len (cur.set k (gl[gl.length - 1]'(by omega))) = (gl.length : Int) := by simp [len, inv.len]
+  have hfl : (gl.dropLast.filter fun g => decide (sz g ≠ 0)).length = k := by
+    rw [← hkeep, List.length_take]; omega
+  have g2 : ¬ ¬ ((0 : Int) ≤ 0 ∧ (0 : Int) ≤ ((k + 1 : Nat) : Int) ∧ ((k + 1 : Nat) : Int) ≤ (gl.length : Int)) := by omega
+  have hwe : wrapI64 ((gl.length : Int) - ((k + 1 : Nat) : Int)) = ((gl.length - (k + 1) : Nat) : Int) := by unfold wrapI64; omega
+  have hnlt : ¬ (((gl.length - 1 : Nat) : Int) < ((gl.length - 1 : Nat) : Int)) := by omega
+  have tail : ((idx cur ((gl.length - 1 : Nat) : Int)).bind fun v0 =>
+      if ¬ ((0 : Int) ≤ (k : Int) ∧ (k : Int) < len cur) then none else
+      if ¬ ((0 : Int) ≤ 0 ∧ (0 : Int) ≤ wrapI64 ((k : Int) + 1) ∧ wrapI64 ((k : Int) + 1) ≤ len (Go.set cur (k : Int) v0)) then none else
+      some (wrapI64 (len (Go.set cur (k : Int) v0) - wrapI64 ((k : Int) + 1)),
+        slice (Go.set cur (k : Int) v0) 0 (wrapI64 ((k : Int) + 1))))
+      = some (((gl.length - ((gl.dropLast.filter fun g => decide (sz g ≠ 0)) ++ [gl[gl.length - 1]'(by omega)]).length : Nat) : Int),
+          (gl.dropLast.filter fun g => decide (sz g ≠ 0)) ++ [gl[gl.length - 1]'(by omega)]) := by
+    rw [idx_natCast, hlast]
+    simp only [Option.bind_some, if_neg g, hw, set_natCast, hl, if_neg g2, hwe, slice_to, take_set_succ cur k _ hkl, hkeep,
+      List.length_append, List.length_cons, List.length_nil, hfl]
+  cases fuel with
+  | zero => rw [T.Cleaner_CleanEmptyGenerations_loop0]; exact tail
+  | succ f => rw [T.Cleaner_CleanEmptyGenerations_loop0, if_neg hnlt]; exact tail
+
+theorem c18_t_CleanEmptyGenerations_loop (sz : Nat → Int) (hsz : ∀ g, 0 ≤ sz g) (gl : List Nat)
+    (hn : gl.length < 4611686018427387904) (hpos : 0 < gl.length) :
+    ∀ (fuel i k : Nat) (cur : List Nat), CInv sz gl cur k i → i + fuel = gl.length - 1 →
+      T.Cleaner_CleanEmptyGenerations_loop0 (fun g => g) sz ((gl.length - 1 : Nat) : Int) fuel cur k i
+        = some (((gl.length - ((gl.dropLast.filter fun g => decide (sz g ≠ 0)) ++ [gl[gl.length - 1]'(by omega)]).length : Nat) : Int),
+            (gl.dropLast.filter fun g => decide (sz g ≠ 0)) ++ [gl[gl.length - 1]'(by omega)]) := by
+  intro fuel
+  induction fuel with
+  | zero =>
+    intro i k cur inv hi
+    have hil : i = gl.length - 1 := by omega
+    subst hil
+    exact clean_tail sz gl cur k hn hpos inv 0
+  | succ fuel ih =>
+    intro i k cur inv hi
+    have hlt : i < gl.length - 1 := by omega
+    have hlt' : (i : Int) < ((gl.length - 1 : Nat) : Int) := by omega
+    have hig : i < gl.length := by omega
+    have hci : cur[i]? = some gl[i] := by
+      have := congrArg (fun l => l[0]?) inv.rest
+      simpa [List.getElem?_drop, hig] using this
+    have htake : gl.take (i + 1) = gl.take i ++ [gl[i]] := by
+      rw [List.take_add_one]; simp [hig]
+    have hrest : cur.drop (i + 1) = gl.drop (i + 1) := by
+      have := congrArg (List.drop 1) inv.rest
+      simpa [List.drop_drop, Nat.add_comm] using this
+    have hwi : wrapI64 ((i : Int) + 1) = ((i + 1 : Nat) : Int) := by unfold wrapI64; omega
+    rw [T.Cleaner_CleanEmptyGenerations_loop0]
+    simp only [if_pos hlt', idx_natCast, hci, Option.bind_some, hwi]
+    by_cases hz : sz gl[i] > 0
+    · have hne : sz gl[i] ≠ 0 := by omega
+      have hkl : k < cur.length := by rw [inv.len]; have := inv.ki; omega
+      have g : ¬ ¬ ((0 : Int) ≤ (k : Int) ∧ (k : Int) < len cur) := by unfold len; omega
+      have hw : wrapI64 ((k : Int) + 1) = ((k + 1 : Nat) : Int) := by have := inv.ki; unfold wrapI64; omega
+      simp only [if_pos hz, if_neg g, hw, set_natCast]
+      have inv' : CInv sz gl (cur.set k gl[i]) (k + 1) (i + 1) := by
+        refine ⟨by have := inv.ki; omega, by omega, by simp [inv.len], ?_, ?_⟩
+        · rw [take_set_succ cur k _ hkl, htake, List.filter_append, inv.kept]; simp [hne]
+        · have hki := inv.ki
+          rw [List.drop_set, if_pos (by omega)]; exact hrest
+      exact ih (i + 1) (k + 1) _ inv' (by omega)
+    · have he : sz gl[i] = 0 := by have := hsz gl[i]; omega
+      simp only [if_neg hz]
+      have inv' : CInv sz gl cur k (i + 1) :=
+        ⟨by have := inv.ki; omega, by omega, inv.len, by rw [inv.kept, htake, List.filter_append]; simp [he], hrest⟩
+      exact ih (i + 1) k cur inv' (by omega)
+
+/-- **`Cleaner.CleanEmptyGenerations`** = `Cache.cleanEmpty`: empty generations but the last one are dropped in place,
+order kept, the number dropped is returned; no generation list at all is a panic on both sides -/
+theorem c18_t_CleanEmptyGenerations (s : St) (hsz : ∀ g, 0 ≤ s.gsize g) (hn : s.glist.length < 4611686018427387904) :
+    T.Cleaner_CleanEmptyGenerations s.glist (fun g => g) s.gsize
+      = (cleanEmpty s).map fun r => (((s.glist.length - r.1.glist.length : Nat) : Int), r.1.glist) := by
+  unfold T.Cleaner_CleanEmptyGenerations cleanEmpty
+  cases hg : s.glist with
+  | nil =>
+    have : wrapI64 (len ([] : List Nat) - 1) = -1 := by unfold wrapI64 len; simp
+    simp only [this, List.getLast?_nil, Option.map_none]
+    rw [show ((-1 : Int) - 0).toNat = 0 from rfl, T.Cleaner_CleanEmptyGenerations_loop0, idx_neg _ (by omega)]
+    rfl
+  | cons g rest =>
+    have hpos : 0 < (g :: rest).length := by simp
+    have hn' : (g :: rest).length < 4611686018427387904 := by rw [← hg]; exact hn
+    have hlen : wrapI64 (len (g :: rest) - 1) = (((g :: rest).length - 1 : Nat) : Int) := by
+      unfold wrapI64 len; omega
+    have inv0 : CInv s.gsize (g :: rest) (g :: rest) 0 0 := ⟨Nat.le_refl _, by simp, rfl, by simp, by simp⟩
+    have hfuel : ((((g :: rest).length - 1 : Nat) : Int) - 0).toNat = (g :: rest).length - 1 := by omega
+    simp only [hlen, hfuel]
+    have := c18_t_CleanEmptyGenerations_loop s.gsize hsz (g :: rest) hn' hpos ((g :: rest).length - 1) 0 0 (g :: rest) inv0 (by omega)
+    rw [show ((0 : Nat) : Int) = 0 from rfl] at this
+    rw [this]
+    have hlast : (g :: rest).getLast? = some ((g :: rest)[(g :: rest).length - 1]'(by simp)) := by
+      rw [List.getLast?_eq_getElem?]; simp
+    simp only [hlast, Option.map_some]
+
 end SV.Props.C18
